@@ -16,6 +16,7 @@ MANIFEST = dict(
           "perpendicular (line-plane: direction parallel to the normal), is the same in both orders, and parallel / orthogonal are True exactly in those two cases."),
     note=("A1: real arithmetic. In floating point the cosine of exactly parallel vectors can exceed 1 by one ulp; that effect is invisible to a proof over the reals and is what the labelled bounded stand-in "
           "(all lattice direction pairs with components in -3..3 and ratios +-1, +-2, +-3, 1/2; exact rational cos^2 reference) checks. A3: acos enters only through its range, its values at -1, 0, 1 and antitonicity."),
+    technique='contract-based deductive verification of angle / parallel / orthogonal with an abstract acos token (z3) + labelled bounded enumeration of lattice direction pairs on floats',
     design_ref="DESIGN.md section 9 (C11)",
 )
 EXPLANATION = "four type combinations x both orders x function and method forms; the flat types have one shape"
